@@ -1,0 +1,28 @@
+//go:build verif
+
+// Package verifhook provides instrumentation points for the external
+// verification harness (enabled with -tags verif).
+package verifhook
+
+import "sync/atomic"
+
+type hookFn func(point string, id uint64)
+
+var cb atomic.Pointer[hookFn]
+
+// Set installs (or, with nil, removes) the callback invoked at every point.
+func Set(fn func(point string, id uint64)) {
+	if fn == nil {
+		cb.Store(nil)
+		return
+	}
+	h := hookFn(fn)
+	cb.Store(&h)
+}
+
+// At marks a pre-emption point. No goat lock is held at any call site.
+func At(point string, id uint64) {
+	if p := cb.Load(); p != nil {
+		(*p)(point, id)
+	}
+}
